@@ -13,7 +13,7 @@ from .c18 import ed_script
 MANIFEST = dict(
     engines="A",
     technique="symbolic execution (CrossHair+z3) of update_file/download_file/replace_file/PackageFile with the local state, index variant, fault kind, faulted patch and faulted write chosen by symbolic integers, over stubbed network, gzip, digest and file system",
-    text="Bounded model checking of update_file's own logic: for 2-3 step histories published as ed patches + index + full file, every combination of local state (each old version, current, foreign, absent), index variant (SHA256, SHA1-only, missing, unparsable) and fault (none, patch j corrupted, patch j missing, wrong result hash, the f-th write/rename failing) either converges to the published content or raises with the local file byte-identical and no '.new' left. The solver enumerates the schedules; 'confirmed' means every feasible combination was executed.",
+    text="Bounded model checking of update_file's own logic: for 2-3 step histories published as ed patches + index + full file, every combination of local state (each old version, current, foreign, absent), index variant (SHA256, SHA1-only, missing, unparsable) and fault (none, patch j corrupted, patch j missing, wrong result hash, the f-th write/rename failing) either converges to the published content or raises with the local file byte-identical and no '.new' left. The solver enumerates the schedules; 'confirmed' means every feasible combination was executed. With the library's own download function: the downloaded patch j fails to decompress (EOFError, zlib.error, BadGzipFile); a history whose hunks straddle the 9/10 line-number boundary ('8,11c', '9,10c', '9,12d').",
     note="Stubs (part of the claim): FakeRepo for urllib/gzip (returns the published lines or IOError), an injective whitespace-free digest for read_lines_sha1/256, FakeFS for open/os.rename/os.unlink/os.path.exists (rename atomic; unlink and reads never fail). Real network, gzip, SHA and power-loss semantics are outside.",
 )
 
